@@ -44,6 +44,31 @@ def allDefL : List TLV → Bool
   | c :: cs => c.allDef && allDefL cs
 end
 
+mutual
+/-- the length form of one mode at every constructed level: definite everywhere under `dm = true` (= `allDef`),
+    indefinite at every constructed node under `dm = false` (primitive nodes are always definite) - X.690 9.1 / 10.1 -/
+def TLV.lenForm (dm : Bool) : TLV → Bool
+  | .prim .. => true
+  | .cons _ _ indef cs => (indef == !dm) && lenFormL dm cs
+def lenFormL (dm : Bool) : List TLV → Bool
+  | [] => true
+  | c :: cs => c.lenForm dm && lenFormL dm cs
+end
+
+mutual
+theorem TLV.lenForm_true : ∀ (x : TLV), x.lenForm true = x.allDef
+  | .prim .. => rfl
+  | .cons _ _ indef cs => by
+    simp only [TLV.lenForm, TLV.allDef, lenFormL_true cs]
+    cases indef <;> rfl
+theorem lenFormL_true : ∀ (cs : List TLV), lenFormL true cs = allDefL cs
+  | [] => rfl
+  | c :: cs => by simp only [lenFormL, allDefL, TLV.lenForm_true c, lenFormL_true cs]
+end
+
+theorem lenForm_allDef {dm : Bool} {x : TLV} (h : x.lenForm dm = true) (hd : dm = true) : x.allDef = true := by
+  subst hd; rw [← TLV.lenForm_true]; exact h
+
 /-- the tree is readable under `cfg` -/
 def TLV.okFor (cfg : ParseCfg) (t : TLV) : Prop := cfg.allowIndef = true ∨ t.allDef = true
 def okForL (cfg : ParseCfg) (ts : List TLV) : Prop := cfg.allowIndef = true ∨ allDefL ts = true
